@@ -461,3 +461,14 @@ Definition run_once_p (ds : list bool) (s : snapshot) : list (id * gresult) * ou
   | PStop => ([], OutErr)          (* RunOnce returns Build's error: RunForever returns it and the process ends *)
   | PGo _ => run_once (after_prelude ds s)
   end.
+
+(* ---------- RunForever: one run per tick until a run returns an error ---------- *)
+(* for { <-ticker; err := RunOnce(); if err != nil { return err } }: every error RunOnce returns ends the loop (and, in
+   cmd/main.go, the process).  Each tick comes with the refresh outcomes and the snapshot of that moment. *)
+Fixpoint run_forever (ticks : list (list bool * snapshot)) : list (list (id * gresult) * outcome) :=
+  match ticks with
+  | [] => []
+  | (ds, s) :: rest =>
+    let r := run_once_p ds s in
+    match snd r with OutOk => r :: run_forever rest | _ => [r] end
+  end.
